@@ -214,7 +214,13 @@ class Folder:
             if isinstance(st, ast.AnnAssign):
                 if st.value is None:
                     raise Unfoldable(name)
-                return self.eval(st.value, {}, m)
+                try:
+                    return self.eval(st.value, {}, m)
+                except Unfoldable:
+                    # (an annotation changes nothing about how the value is made)
+                    if getattr(self, 'fallback', None) is None:
+                        raise
+                    return self.fallback(st.value, m)
             try:
                 val = self.eval(st.value, {}, m)
             except Unfoldable:
